@@ -144,15 +144,8 @@ class Pool:
                     l, r = fn(A, B, operator.mul)
                     return S(left=l, right=r)
                 if fam == "pow":
-                    if br == "frechet":
-                        l, r = O.frechet_op(A, B, operator.pow)
-                    elif br == "perfect":
-                        l, r = A.left ** B.left, A.right ** B.right
-                    elif br == "opposite":
-                        l, r = A.left ** np.flip(B.right), A.right ** np.flip(B.left)
-                    else:
-                        l = O.vectorized_cartesian_op(A.left, B.left, operator.pow)
-                        r = O.vectorized_cartesian_op(A.right, B.right, operator.pow)
+                    # pbox_abc.pow (as of 9f531b2): the same four routines as add, with operator.pow, then sort
+                    l, r = fn(A, B, operator.pow)
                     l.sort(); r.sort()
                     return S(left=l, right=r)
                 raise KeyError(fam)
